@@ -344,7 +344,12 @@ class Sem:
                 for c, o in ((ya, x), (xa, y)):
                     if c is not None and c >= 0 and (c + 1) & c == 0:  # mask 2^k - 1
                         return Sc(o % (c + 1), rty)
-            raise Unsupported("bit operation %s on symbolic operands in int mode" % op)
+            # symbolic bit operation in the integer encoding: an uninterpreted function of the operands
+            # (sound: nothing is assumed about it except the result type's range); concrete-shape
+            # refutation runs evaluate it on numerals
+            f = z3.Function("BITOP_%s_%d" % (op, rty.bitwidth), z3.IntSort(), z3.IntSort(), z3.IntSort())
+            self.assumptions.add("symbolic %s in int mode is uninterpreted" % op)
+            return Sc(self.wrap(f(x, y), rty), rty)
         raise Unsupported("int op %s" % op)
 
     def _shift(self, op, a, b, rty, signed_val, obl):
